@@ -1667,7 +1667,11 @@ func (a *Act) fireCuts(b *ssa.BasicBlock, ii int, st *State, reach string) {
 		}
 	}
 	for _, c := range a.ct.Cuts {
-		if c.Anchor != line || a.firedCuts[c] {
+		anchor := c.Anchor
+		if len(anchor) > 70 {
+			anchor = anchor[:70] // source lines are compared in the truncated form used in obligation names
+		}
+		if anchor != line || a.firedCuts[c] {
 			continue
 		}
 		if c.Let != "" {
